@@ -446,7 +446,9 @@ fn push_bytes(out: &mut [u8; 48], n: &mut usize, src: &[u8]) {
     }
 }
 
-fn c17_body<const L: usize>() {
+/// `dollar`: Some(true) = templates that start with '$', Some(false) = the others, None = all (the split only
+/// halves the solver instance; the two harnesses together cover every template)
+fn c17_body<const L: usize>(dollar: Option<bool>) {
     // template
     let mut sym = [0usize; L];
     let mut tb = [0u8; 8];
@@ -455,6 +457,13 @@ fn c17_body<const L: usize>() {
     while i < L {
         let s: usize = kani::any();
         kani::assume(s < 9);
+        if i == 0 {
+            match dollar {
+                Some(true) => kani::assume(s == 0),
+                Some(false) => kani::assume(s != 0),
+                None => {}
+            }
+        }
         sym[i] = s;
         let b = SYMS[s].as_bytes();
         tb[tl] = b[0];
@@ -588,23 +597,34 @@ fn c17_body<const L: usize>() {
         )*};
     }
     same_at!(0, 1, 2, 3, 4, 5, 6, 7, 8, 9, 10, 11, 12, 13, 14, 15, 16, 17, 18, 19, 20, 21, 22, 23);
-    kani::cover!(grp, "a numbered group was expanded to non-empty text");
+    kani::cover!(if dollar == Some(false) { wl >= 2 } else { grp }, "a numbered group was expanded to non-empty text (plain templates: two literal bytes)");
     kani::cover!(L < 4 || named, "a named group was expanded (needs 4 symbols)");
-    kani::cover!(wl == 0, "everything expanded to nothing");
+    kani::cover!(dollar == Some(false) || wl == 0, "everything expanded to nothing");
     core::mem::forget(out);
     core::mem::forget(m);
     core::mem::forget(re);
 }
 
-// @verif props=C17 mem=9 tier=quick timeout=2400 unwind=5 bound="templates of 2 symbols over {$,0,1,2,9,{,},a,e-acute}; 2 groups (one named) with symbolic ranges over the 3-byte text "e-acute y"" funcs="Regex::expand_replacement,Match::group,Match::named_group" stubs="String::{new,with_capacity,push,push_str} -> fixed 32-byte buffer model, capacity overflow asserted"
+// @verif props=C17 mem=9 tier=quick timeout=2400 unwind=5 bound="templates of 2 symbols that start with $, over {$,0,1,2,9,{,},a,e-acute}; 2 groups (one named) with symbolic ranges over the 3-byte text "e-acute y"" funcs="Regex::expand_replacement,Match::group,Match::named_group" stubs="String::{new,with_capacity,push,push_str} -> fixed 32-byte buffer model, capacity overflow asserted"
 #[kani::proof]
 #[kani::unwind(5)]
 #[kani::stub(std::string::String::push, stub_string_push)]
 #[kani::stub(std::string::String::push_str, stub_string_push_str)]
 #[kani::stub(std::string::String::with_capacity, stub_string_with_capacity)]
 #[kani::stub(std::string::String::new, stub_string_new)]
-fn c17_expand_2() {
-    c17_body::<2>();
+fn c17_expand_2_dollar() {
+    c17_body::<2>(Some(true));
+}
+
+// @verif props=C17 mem=9 tier=quick timeout=2400 unwind=5 bound="templates of 2 symbols that do not start with $, over {$,0,1,2,9,{,},a,e-acute}; 2 groups (one named) with symbolic ranges over the 3-byte text "e-acute y"" funcs="Regex::expand_replacement,Match::group,Match::named_group" stubs="String::{new,with_capacity,push,push_str} -> fixed 32-byte buffer model, capacity overflow asserted"
+#[kani::proof]
+#[kani::unwind(5)]
+#[kani::stub(std::string::String::push, stub_string_push)]
+#[kani::stub(std::string::String::push_str, stub_string_push_str)]
+#[kani::stub(std::string::String::with_capacity, stub_string_with_capacity)]
+#[kani::stub(std::string::String::new, stub_string_new)]
+fn c17_expand_2_plain() {
+    c17_body::<2>(Some(false));
 }
 
 // @verif props=C17 tier=thorough timeout=5400 mem=20 unwind=6 bound="templates of 3 symbols over {$,0,1,2,9,{,},a,e-acute}; 2 groups" funcs="Regex::expand_replacement,Match::group,Match::named_group" stubs="String::{new,with_capacity,push,push_str} -> fixed 32-byte buffer model, capacity overflow asserted"
@@ -615,7 +635,7 @@ fn c17_expand_2() {
 #[kani::stub(std::string::String::with_capacity, stub_string_with_capacity)]
 #[kani::stub(std::string::String::new, stub_string_new)]
 fn c17_expand_3() {
-    c17_body::<3>();
+    c17_body::<3>(None);
 }
 
 // @verif props=C17 tier=extended timeout=5400 mem=30 unwind=7 bound="templates of 4 symbols (reaches ${a} and $$$1)" funcs="Regex::expand_replacement,Match::group,Match::named_group" stubs="String::{new,with_capacity,push,push_str} -> fixed 32-byte buffer model, capacity overflow asserted"
@@ -626,7 +646,7 @@ fn c17_expand_3() {
 #[kani::stub(std::string::String::with_capacity, stub_string_with_capacity)]
 #[kani::stub(std::string::String::new, stub_string_new)]
 fn c17_expand_4() {
-    c17_body::<4>();
+    c17_body::<4>(None);
 }
 
 // ===========================================================================================
